@@ -510,6 +510,26 @@ func c06DeferredCtx(s *source, e *emitter, rel, goName, sink, recv, relFree, rec
 	return out
 }
 
+// c06Decoders lists, in source order, the JSON decoders a function calls: every call whose selector name starts
+// with "Unmarshal", as `<qualifier>.<name>` (jsonx.Unmarshal and json.Unmarshal are different callees).
+func c06Decoders(s *source, e *emitter, rel, goName string) []string {
+	fd := s.findFunc(rel, goName)
+	if fd == nil {
+		e.errors = append(e.errors, fmt.Sprintf("function %s not found in %s", goName, rel))
+		return []string{"MISSING"}
+	}
+	var out []string
+	ast.Inspect(fd.Body, func(n ast.Node) bool {
+		if c, ok := n.(*ast.CallExpr); ok {
+			if sel, ok := c.Fun.(*ast.SelectorExpr); ok && strings.HasPrefix(sel.Sel.Name, "Unmarshal") {
+				out = append(out, s.src(sel.X)+"."+sel.Sel.Name)
+			}
+		}
+		return true
+	})
+	return out
+}
+
 func c06Pairs(e *emitter, lean, doc string, keys []string, vals map[string][]string) {
 	sort.Strings(keys)
 	var rows []string
@@ -855,6 +875,13 @@ func init() {
 		// round 5b: the context of the Redis command the cleaner's retry issues (work left behind by a Ctx entry point)
 		e.stringList("retryDelCtx", "context of the calls on c.rds inside the closure asyncRetryDelCache hands to AddCleanTask",
 			c06DeferredCtx(s, e, node, "cacheNode.asyncRetryDelCache", "AddCleanTask", "c.rds", rds, "Redis"))
+		// round 5e: the JSON decoder on every decode path of a cached read (follower of a shared flight: the tail of
+		// doTake; cache hit: processCache), and what jsonx.Unmarshal is (a decoder with UseNumber)
+		const jsonxF = "core/jsonx/json.go"
+		e.stringList("doTakeDecoders", "decoders called by cacheNode.doTake (the follower's decode of the shared value)", c06Decoders(s, e, node, "cacheNode.doTake"))
+		e.stringList("processCacheDecoders", "decoders called by cacheNode.processCache (the cache hit's decode)", c06Decoders(s, e, node, "cacheNode.processCache"))
+		c06Facts(s, e, jsonxF, "Unmarshal", "jsonxUnmarshalFacts", "unmarshalUseNumber")
+		c06Facts(s, e, jsonxF, "unmarshalUseNumber", "jsonxUseNumberFacts", "UseNumber", "Decode")
 		e.stringList("newNodeOptionFields", "where the expiries of the cacheNode literal in NewNode come from",
 			append(c06LitFieldClass(s, e, node, "NewNode", "cacheNode", "expiry"), c06LitFieldClass(s, e, node, "NewNode", "cacheNode", "notFoundExpiry")...))
 		c06Facts(s, e, node, "cacheNode.String", "nodeStringFacts")
